@@ -43,6 +43,27 @@ def alternatives(rng, vs, n, mode):
     return [alts[i] for i in order]
 
 
+def slabs(rng, vs, n, mode):
+    """n alternatives that are SLABS across a direction over several variables (one or two rows each, fewer rows than variables when
+    two of them are joined): half-space below, strips, half-space above; disjoint / touching / overlapping as for boxes"""
+    d = {v: rng.choice([1, 1, 2, -1]) for v in vs[: rng.randint(2, len(vs))]}
+    neg = {v: -a for v, a in d.items()}
+    alts, lo = [], rng.randint(-4, 0)
+    for k in range(n):
+        w = rng.randint(1, 3)
+        rows = []
+        if k > 0:
+            rows.append((dict(neg), -lo))
+        if k < n - 1:
+            rows.append((dict(d), lo + w))
+        alts.append(rows or [(dict(d), lo + w)])
+        gap = {"disjoint": rng.randint(1, 3), "touching": 0, "overlapping": -rng.randint(1, w), "mixed": rng.choice([2, 0, -1])}[mode]
+        lo = lo + w + gap
+    order = list(range(n))
+    rng.shuffle(order)
+    return [alts[i] for i in order]
+
+
 def alts_rows(nested):
     return [C.prows(tl) for tl in nested.nested_termlist]
 
@@ -224,6 +245,8 @@ def gen_cases(tier):
         if kind == "construct":
             c["via"] = ["nested", "copy", "contract"][(i // 3) % 3]
             c["alts"] = alternatives(rng, vs, rng.randint(2, 3), mode)
+            if nv >= 2 and i % 4 == 1:
+                c["alts"] = slabs(rng, vs, rng.randint(2, 3), mode)
             if i % 12 == 0:
                 # three alternatives, only the first and the last overlap
                 w = rng.randint(1, 2)
@@ -251,8 +274,10 @@ def gen_cases(tier):
         else:
             inv, outv = vs[:1], (vs[1:2] or ["o"])
             def spec():
-                return {"inv": inv, "outv": outv, "a": alternatives(rng, inv, rng.randint(1, 3), "disjoint"),
-                        "g": [box_alt(rng, outv + inv, rng.randint(-5, 0), rng.randint(1, 6)) for _ in range(rng.randint(1, 2))]}
+                g = [box_alt(rng, outv + inv, rng.randint(-5, 0), rng.randint(1, 6)) for _ in range(rng.randint(1, 2))]
+                if i % 5 == 2:
+                    g = slabs(rng, outv + inv, rng.randint(1, 2), "disjoint")      # sparse alternatives: joined pairwise they have no more rows than variables
+                return {"inv": inv, "outv": outv, "a": alternatives(rng, inv, rng.randint(1, 3), "disjoint"), "g": g}
             c["c1"], c["c2"] = spec(), spec()
             if (i // 6) % 3 != 1:
                 # a history of two merges; in half of them the first merge leaves no alternative at all on one side
